@@ -47,6 +47,8 @@ type interpreter struct {
 	ps      *pathState
 	id      int
 	violLit *Term
+	// lenSigned: signedness of the operand currently resolved by concreteLen
+	lenSigned bool
 
 	hstatesInit  map[*value]*hstate
 	initHashApps []*hashApp
@@ -374,8 +376,16 @@ func visitInstr(fr *frame, instr ssa.Instruction) continuation {
 		*addr = zero(deref(instr.Type()))
 
 	case *ssa.MakeSlice:
+		i.lenSigned = true
+		if ik, ok := basicIntKind(instr.Cap.Type()); ok {
+			i.lenSigned = ik.signed
+		}
 		c := i.concreteLen(fr.get(instr.Cap), "make cap")
+		if ik, ok := basicIntKind(instr.Len.Type()); ok {
+			i.lenSigned = ik.signed
+		}
 		l := i.concreteLen(fr.get(instr.Len), "make len")
+		i.lenSigned = true
 		if l < 0 || l > c {
 			panic(targetPanic{i.runtimeError("runtime error: makeslice: len out of range")})
 		}
